@@ -291,7 +291,10 @@ def c05(run):
     ch = with_harness(run, "clock")
     if usable and h:
         sched_runs(run, h, ALL_KINDS, "racers", ("FN", "NONLIN", "PREFILL"), quick=(50, 6))
-        sched_runs(run, h, ALL_KINDS, "", ("FN",), quick=(40, 6), lin=False)
+        sched_runs(run, h, ("cache", "cacheof"), "", ("FN",), quick=(40, 6), lin=False)
+        # the general mix on the tables, judged for linearizability too: "no lost update", "one winner" are statements
+        # about every interleaving with grows, shrinks and Clear
+        sched_runs(run, h, ("map", "mapof"), "", ("FN", "NONLIN", "PREFILL"), quick=(400, 6))
         # get-or-create and compute calls while the table shrinks or is cleared (no lost update, one winner)
         sched_runs(run, h, ("map", "mapof"), "shrink", ("FN", "NONLIN", "PREFILL"), quick=(80, 8))
         trace_runs(run, h, ("map", "mapof"), quick=(40, 4))
